@@ -41,9 +41,9 @@ class Path:
         return [c for c in self.calls if is_relevant(c)]
 
 
-def extract(funcs, fname, params=None, named=None, start='bb0', stop=(), init=None, checked=True):
+def extract(funcs, fname, params=None, named=None, start='bb0', stop=(), init=None, checked=True, inline=None):
     """-> (E, [Path]) for a whole-body run with loops cut after one iteration"""
-    E = e2.Exec(funcs, mode='bv', inline=set(), params=params or {})
+    E = e2.Exec(funcs, mode='bv', inline=set(inline or ()), params=params or {})
     E.cut_loops = True
     f = funcs[fname]
     st = E.init_params(f, named)
